@@ -1147,6 +1147,13 @@ func c04r7(c *core.Ctx) {
 
 func c05r6(c *core.Ctx) {
 	wrappersPure(c, [][2]string{{"crypto/hkdf", "Sha512"}, {"crypto/chacha20poly1305", "DecryptAndVerify"}, {"crypto/chacha20poly1305", "EncryptAndSeal"}})
+	// the session key is derived from the ephemeral keys of this connection: with a process-wide accessory key pair a replayed
+	// pair-verify yields the same session key with the frame counter back at zero, and every recorded frame is accepted again
+	if ctor := c.P.Func("hap/pair", "NewVerifyServerController"); ctor != nil {
+		freshState(c, ctor, "the pair-verify controller constructor")
+	} else {
+		c.Undecided("NewVerifyServerController", token.NoPos, "not found")
+	}
 }
 
 func c11r6(c *core.Ctx) {
@@ -1807,7 +1814,7 @@ func errorTestPolarity(c *core.Ctx, f *ssa.Function, signals func(ssa.Instructio
 					t.silent, t.witness = true, pa
 				}
 			} else if ret != nil && !signalled {
-				if core.IsNilConst(errv) || !core.SomeSource(errv, func(s ssa.Value) bool { return core.SomeSource(t.ev, func(e ssa.Value) bool { return e == s }) }) {
+				if core.IsNilConst(errv) || errv == t.ev || !core.SomeSource(errv, func(s ssa.Value) bool { return core.SomeSource(t.ev, func(e ssa.Value) bool { return e == s }) }) {
 					t.success = true
 				}
 			}
@@ -1995,4 +2002,76 @@ func putDecisions(c *core.Ctx, f *ssa.Function) {
 		})
 		c.Check(good && n > 0, "put-decode-error-polarity@"+fname(f), posOf(call), "the request is acted on exactly where decoding succeeded", "the decoding error of the request body is tested the wrong way round (or not at all): well-formed requests are answered with an error, malformed ones are acted on with zero values")
 	})
+}
+
+// wrapperErrors: the helper functions the step handlers of a pairing controller call (session methods, crypto wrappers) hand the
+// errors of the primitives they call back to the handler. The handlers decide on those errors (proofFacts, errNilFact): a wrapper
+// that answers nil after its primitive refused (a shadowed result, a test the wrong way round, a dropped result) makes every
+// handler-side guard vacuous — e.g. an SRP public key A with A mod N == 0 refused by ComputeKey but accepted by the wrapper leaves
+// the session key empty, and the proof of an empty key can be computed by anyone.
+//
+//	(a) errorTestPolarity on every module function reachable from the handlers (not the handlers themselves);
+//	(b) in those functions, the error result of every call is used: tested, returned, passed on or stored — never discarded.
+func wrapperErrors(c *core.Ctx, ctrl, typ string) {
+	p := c.P
+	mo := buildStepModel(p, "hap/pair", ctrl, typ)
+	if mo == nil || len(mo.handlers) == 0 {
+		c.Undecided("wrapper-errors:"+ctrl, token.NoPos, "step handlers not found")
+		return
+	}
+	isHandler := map[*ssa.Function]bool{mo.handle: true}
+	for _, h := range mo.handlers {
+		isHandler[h] = true
+	}
+	n := 0
+	for _, f := range core.SortedFuncs(p.ReachableFuncs(mo.handlers...)) {
+		if isHandler[f] || !core.InModule(f) || f.Blocks == nil || isTestFunc(p, f) || !core.IsLibraryPkg(pkgPathOf(f)) {
+			continue
+		}
+		if pp := pkgPathOf(f); strings.HasSuffix(pp, "/log") || strings.HasSuffix(pp, "/util") || strings.HasSuffix(pp, "/db") {
+			continue // logging; containers and storage have their own rules (C16, C18)
+		}
+		nres := f.Signature.Results().Len()
+		if nres == 0 || f.Signature.Results().At(nres-1).Type().String() != "error" {
+			continue
+		}
+		n++
+		errorTestPolarity(c, f, nil)
+		core.Instrs(f, func(i ssa.Instruction) {
+			call, ok := i.(*ssa.Call)
+			if !ok {
+				return
+			}
+			sig := call.Call.Signature()
+			k := sig.Results().Len()
+			if k == 0 || sig.Results().At(k-1).Type().String() != "error" {
+				return
+			}
+			used := false
+			if k == 1 {
+				used = len(*call.Referrers()) > 0
+			} else {
+				for _, r := range *call.Referrers() {
+					if ex, isEx := r.(*ssa.Extract); isEx && ex.Index == k-1 && len(*ex.Referrers()) > 0 {
+						used = true
+					}
+				}
+			}
+			c.Check(used, "error-used@"+fname(f)+"/"+calleeLabel(call), posOf(call), "the error of the call is used", "the error result of a call in "+fname(f)+" is discarded: the handler that relies on this helper never learns that the primitive refused")
+		})
+	}
+	c.Count("wrapper_functions:"+ctrl, n)
+	if n == 0 {
+		c.Undecided("wrapper-errors:"+ctrl, token.NoPos, "no error-returning helper reachable from the step handlers")
+	}
+}
+
+func calleeLabel(call *ssa.Call) string {
+	if f := call.Call.StaticCallee(); f != nil {
+		return f.Name()
+	}
+	if call.Call.IsInvoke() {
+		return call.Call.Method.Name()
+	}
+	return "dynamic"
 }
